@@ -174,3 +174,23 @@ def diff_snapshots(a, b):
         if k not in a:
             return k, "extra"
     return None
+
+
+def compare_tables(prop, p, exp):
+    """exp: decref.all_tables() result.  Decay-block mothers must come first and in file order;
+    copied / conjugated tables follow in any order.  Every line and field is compared."""
+    obs = observed_tables(p, prop)
+    exp_decay = [(m, lines) for m, o, lines in exp if o == "decay"]
+    exp_other = [(m, lines) for m, o, lines in exp if o != "decay"]
+    obs_m = [m for m, _ in obs]
+    n_dec = len(exp_decay)
+    if obs_m[:n_dec] != [m for m, _ in exp_decay] or sorted(obs_m[n_dec:]) != sorted(m for m, _ in exp_other):
+        raise Mismatch(f"{prop}:mothers", "decay mother names / order", [[m, o] for m, o, _ in exp], obs_m)
+    with impl(prop, "number_of_decays"):
+        n = p.number_of_decays
+    if n != len(exp):
+        raise Mismatch(f"{prop}:number_of_decays", "", len(exp), n)
+    obs_d = dict(obs)
+    for m, lines in exp_decay + exp_other:
+        compare_lines(prop, m, lines, obs_d[m])
+    return obs
